@@ -630,3 +630,4 @@ def reads(chk, repo, d):
 # added rules (appended to the explanation the evidence file carries)
 EXPLANATION += (" " + "Added during the build (DESIGN.md 4.31, second table): unary minus / abs keep the operand's scale (every operand kind, constants included); who-may-decode rule for map bytes (R02.3); HashGlobalVarDesc.__get__ by abstract execution on 11 cells; conversion sites are looked for in every function of the package.")
 EXPLANATION += (' Added after wave 8: a Python number folded to a Constant by the scale code must be left as the integer the conversion gives; (R02.3) who may encode map values (shared with C08).')
+EXPLANATION += (' Added after wave 10: (R02.2) HashGlobalVarDesc.__set__ on a loaded program, 25 rows by abstract execution; the scale statement is also found when it lives in a method called on the value.')
